@@ -11,6 +11,7 @@ import (
 
 func init() {
 	register("C17", func(c *core.Ctx, tier string) {
+		corsAndContextEffects(c, "C17.9")
 		baseServerEffects(c, "C17.8")
 		c17Cookie(c)
 		c17FirstResponse(c)
